@@ -83,7 +83,8 @@ pub open spec fn f_pow(x: FS, n: nat) -> FS decreases n { if n == 0 { f_one() } 
 
 // RNG: a stream identified by `id`; `pos` values have been consumed.  Everything drawn is a
 // function of (id, position) -- i.e. the only assumption is that the generator is a deterministic stream.
-pub struct Rng { pub id: Ghost<int>, pub pos: Ghost<nat> }
+// `present` is false for an OptionalRng wrapping None: every draw from it panics (= diverges), so a draw that returns implies `present`.
+pub struct Rng { pub id: Ghost<int>, pub pos: Ghost<nat>, pub present: Ghost<bool> }
 pub uninterp spec fn draw(id: int, pos: nat) -> FS;        // field/group element (as dlog) drawn at a position
 pub uninterp spec fn draw_u128(id: int, pos: nat) -> FS;   // image in the field of a u128 drawn at a position
 
@@ -98,9 +99,9 @@ impl Fr {
     #[verifier::external_body] pub fn double(&self) -> (r: Fr) ensures r@ == f_add(self@, self@) { unimplemented!() }
     #[verifier::external_body] pub fn pow(&self, e: [u64; 1]) -> (r: Fr) ensures r@ == f_pow(self@, e[0] as nat) { unimplemented!() }
     #[verifier::external_body] pub fn rand(rng: &mut Rng) -> (r: Fr)
-        ensures r@ == draw(old(rng).id@, old(rng).pos@), final(rng).id == old(rng).id, final(rng).pos@ == old(rng).pos@ + 1 { unimplemented!() }
+        ensures r@ == draw(old(rng).id@, old(rng).pos@), final(rng).id == old(rng).id, final(rng).pos@ == old(rng).pos@ + 1, final(rng).present == old(rng).present, old(rng).present@ { unimplemented!() }
     #[verifier::external_body] pub fn from_u128_rand(rng: &mut Rng) -> (r: Fr)     // `u128::rand(rng).into()`
-        ensures r@ == draw_u128(old(rng).id@, old(rng).pos@), final(rng).id == old(rng).id, final(rng).pos@ == old(rng).pos@ + 1 { unimplemented!() }
+        ensures r@ == draw_u128(old(rng).id@, old(rng).pos@), final(rng).id == old(rng).id, final(rng).pos@ == old(rng).pos@ + 1, final(rng).present == old(rng).present, old(rng).present@ { unimplemented!() }
     #[verifier::external_body] pub fn from_u64(x: u64) -> (r: Fr) ensures r@ == f_from_nat(x as nat) { unimplemented!() }
 }
 impl G1 {
@@ -110,7 +111,7 @@ impl G1 {
     #[verifier::external_body] pub fn into_affine(self) -> (r: G1Affine) ensures r@ == self@ { unimplemented!() }
     #[verifier::external_body] pub fn into(self) -> (r: G1Affine) ensures r@ == self@ { unimplemented!() }
     #[verifier::external_body] pub fn rand(rng: &mut Rng) -> (r: G1)
-        ensures r@ == draw(old(rng).id@, old(rng).pos@), final(rng).id == old(rng).id, final(rng).pos@ == old(rng).pos@ + 1 { unimplemented!() }
+        ensures r@ == draw(old(rng).id@, old(rng).pos@), final(rng).id == old(rng).id, final(rng).pos@ == old(rng).pos@ + 1, final(rng).present == old(rng).present, old(rng).present@ { unimplemented!() }
     // ark-ec VariableBaseMSM::msm_bigint: sum over zip(bases, scalars) (the shorter length wins)
     #[verifier::external_body] pub fn msm_bigint(bases: &[G1Affine], bigints: &[BigInt]) -> (r: G1)
         ensures r@ == msm(bases@, bviews(bigints@), min(bases@.len(), bigints@.len())) { unimplemented!() }
@@ -135,7 +136,7 @@ impl G2 {
     #[verifier::external_body] pub fn mul(self, s: Fr) -> (r: G2) ensures r@ == f_mul(self@, s@) { unimplemented!() }
     #[verifier::external_body] pub fn into_affine(self) -> (r: G2Affine) ensures r@ == self@ { unimplemented!() }
     #[verifier::external_body] pub fn rand(rng: &mut Rng) -> (r: G2)
-        ensures r@ == draw(old(rng).id@, old(rng).pos@), final(rng).id == old(rng).id, final(rng).pos@ == old(rng).pos@ + 1 { unimplemented!() }
+        ensures r@ == draw(old(rng).id@, old(rng).pos@), final(rng).id == old(rng).id, final(rng).pos@ == old(rng).pos@ + 1, final(rng).present == old(rng).present, old(rng).present@ { unimplemented!() }
     #[verifier::external_body] pub fn batch_mul(self, s: &[Fr]) -> (r: Vec<G2Affine>)
         ensures r@.len() == s@.len(), forall|i: int| 0 <= i < s@.len() ==> (#[trigger] r@[i])@ == f_mul(self@, s@[i]@) { unimplemented!() }
 }
@@ -172,3 +173,9 @@ impl E {
     pub fn multi_pairing_vec(a: Vec<G1Affine>, b: Vec<G2Prepared>) -> (r: GT)
         ensures r@ == dot(g1views(a@), Seq::new(b@.len(), |i: int| b@[i]@), min(a@.len(), b@.len())) { unimplemented!() }
 }
+// crate::optional_rng::OptionalRng(rng): an RNG that forwards to `rng` if present and panics on use otherwise.
+// Modelled by value: same stream identity and position as the wrapped generator.
+#[verifier::external_body]
+pub fn optional_rng_wrap(rng: Option<&mut Rng>) -> (r: Rng)
+    ensures r.present@ == (rng is Some && old(rng->Some_0).present@), rng is Some ==> (r.id == old(rng->Some_0).id && r.pos == old(rng->Some_0).pos)
+{ unimplemented!() }
